@@ -20,7 +20,7 @@
    sets and are observed sorted.  pd.to_datetime is a black box (a timestamp cell
    arrives parsed).  Features are column-major: a feature of one stype is the list of
    its columns, so `cat(dim=1)` of features and `+` of name lists are both append. *)
-From Coq Require Import List Arith ZArith Bool String.
+From Coq Require Import List Arith ZArith QArith Bool String.
 From PF Require Import Lib.ListX Gen.Tables Model.Ragged Model.Mapper Model.MapperSpec Model.Converter.
 Import ListNotations.
 Local Open Scope nat_scope.
@@ -246,6 +246,51 @@ Definition pcall (fits : list (string * col_fit)) := call (pipeline_col Nat.eqb 
 Definition prun (fits : list (string * col_fit)) := run (pipeline_col Nat.eqb fits).
 Definition pdf_select := @df_select nat fcol fcol_select.
 
+(* ------------------------------------------------------- typed category values *)
+(* A raw cell of a category column with its Python type.  pandas merges the column against the
+   category index on OBJECT keys (CategoricalTensorMapper.forward: astype(object) on both sides), i.e.
+   by Python equality + hash: numbers compare by value whatever their type (1 == 1.0), a str equals
+   only the same str, +/-inf only itself; NaN / None are missing (no key). *)
+Inductive tval := TInt (z : Z) | TFloat (q : Q) | TInf (pos : bool) | TStr (s : str).
+Definition tnum (v : tval) : option Q :=
+  match v with TInt z => Some (inject_Z z) | TFloat q => Some q | _ => None end.
+Definition key_eqb (a b : tval) : bool :=
+  match tnum a, tnum b with
+  | Some x, Some y => Qeq_bool x y
+  | None, None =>
+      match a, b with
+      | TStr s, TStr t => str_eqb s t
+      | TInf p, TInf q => Bool.eqb p q
+      | _, _ => false
+      end
+  | _, _ => false
+  end.
+(* the merge + NaN -> -1 on typed keys: position of the first category equal to the cell *)
+Fixpoint typed_find (cats : list tval) (v : tval) : option nat :=
+  match cats with
+  | [] => None
+  | c :: r => if key_eqb c v then Some 0 else option_map S (typed_find r v)
+  end.
+Definition typed_cat_cell (cats : list tval) (c : option tval) : Z :=
+  match c with
+  | None => (-1)%Z
+  | Some v => match typed_find cats v with Some k => Z.of_nat k | None => (-1)%Z end
+  end.
+(* how a typed value is presented to the untyped pipeline model (Mapper.pval = VInt | VStr; this is
+   what harness/c04.py `pv` does): an integral number is that integer; any other number / infinity
+   becomes a string beginning with a negative code point, which no Python str contains *)
+Definition norm_q (q : Q) : pval :=
+  let r := Qred q in
+  if (Zpos (Qden r) =? 1)%Z then VInt (Qnum r) else VStr [(-1)%Z; Qnum r; Zpos (Qden r)].
+Definition norm (v : tval) : pval :=
+  match v with
+  | TInt z => VInt z
+  | TFloat q => norm_q q
+  | TInf p => VStr [(-2)%Z; if p then 1%Z else 0%Z]
+  | TStr s => VStr s
+  end.
+Definition wf_tval (v : tval) : Prop := match v with TStr s => Forall (fun c => (0 <= c)%Z) s | _ => True end.
+
 (* ------------------------------------------- materialize(col_stats = ...) *)
 (* one column's statistics: which StatType keys exist, the category list, EMB_DIM *)
 Record col_stat := { cs_keys : list stat_type; cs_cats : list pval; cs_emb : option nat }.
@@ -428,3 +473,7 @@ Definition materialize_ok (cts : list (string * stype)) (seps : list (string * o
          end
   | None => false
   end.
+
+(* correspondence form: the typed model on the cells of one category column vs. the TensorFrame *)
+Definition typed_cat_ok (cats : list tval) (cells : list (option tval)) (observed : list Z) : bool :=
+  list_eqb Z.eqb (map (typed_cat_cell cats) cells) observed.
